@@ -249,7 +249,7 @@ def grad_full(ans, shape, fill_value, dtype=None):
     if dtype is not None and not onp.issubdtype(onp.dtype(dtype), onp.inexact):
         # a conversion to an integer or boolean type is piecewise constant
         return lambda g: vspace(fill_value).zeros()
-    return unbroadcast_f(fill_value, lambda g: g)
+    return unbroadcast_f(fill_value, lambda g: match_dtype(fill_value, g))
 
 
 defvjp(anp.full, grad_full, argnums=(1,))
@@ -963,6 +963,15 @@ def match_complex(target, x):
         return x
 
 
+def match_dtype(target, x):
+    # an explicit dtype= of a constructor changes the precision of the result, not of the
+    # argument's cotangent (as for astype)
+    dtype = anp.result_type(target)
+    if onp.issubdtype(dtype, onp.inexact) and anp.result_type(x) != dtype:
+        return anp._astype(x, dtype)
+    return x
+
+
 def unbroadcast(x, target_meta, broadcast_idx=0):
     target_shape, target_ndim, dtype, target_iscomplex = target_meta
     while anp.ndim(x) > target_ndim:
@@ -1021,9 +1030,11 @@ def array_from_scalar_or_array_gradmaker(ans, array_args, array_kwargs, scarray)
         # a conversion to an integer or boolean type is piecewise constant
         return lambda g: vspace(scarray).zeros()
     if ndmin > scarray_ndim:
-        return lambda g: match_complex(scarray, anp.squeeze(g, axis=tuple(range(ndmin - scarray_ndim))))
+        return lambda g: match_dtype(
+            scarray, match_complex(scarray, anp.squeeze(g, axis=tuple(range(ndmin - scarray_ndim))))
+        )
     else:
-        return lambda g: match_complex(scarray, g)
+        return lambda g: match_dtype(scarray, match_complex(scarray, g))
 
 
 defvjp(anp._array_from_scalar_or_array, array_from_scalar_or_array_gradmaker, argnums=(2, 3))
